@@ -3,12 +3,18 @@
 package core
 
 import (
+	"bufio"
 	"fmt"
 	"math/rand/v2"
+	"net"
+	"os"
 	"strings"
 	"sync"
 	"testing"
 	"time"
+
+	"github.com/bluenviron/mediacommon/v2/pkg/formats/mpegts"
+	tscodecs "github.com/bluenviron/mediacommon/v2/pkg/formats/mpegts/codecs"
 
 	"github.com/bluenviron/mediamtx/internal/auth"
 	"github.com/bluenviron/mediamtx/internal/defs"
@@ -146,6 +152,8 @@ func (e *wbEnv) heldAddReader(id, name string) *c19Held {
 	return h
 }
 
+const wbReadTimeoutShort = 250 * time.Millisecond
+
 func c19Wait(cond func() bool, d time.Duration) bool {
 	deadline := time.Now().Add(d)
 	for time.Now().Before(deadline) {
@@ -251,7 +259,7 @@ func TestVerifC19(t *testing.T) {
 	isTerminated := func(a string) bool { return strings.HasPrefix(a, "err:") && strings.Contains(a, "terminated") }
 	for hi := 0; hi < n; hi++ {
 		closeAfter := time.Duration(100+rng.IntN(100)) * time.Millisecond
-		scenario := []string{"ready-in-time", "start-timeout", "path-closed-while-held", "publisher-left-then-new-demand", "static-source-unreachable", "ready-then-second-wave"}[hi%6]
+		scenario := []string{"ready-in-time", "start-timeout", "path-closed-while-held", "publisher-left-then-new-demand", "static-source-unreachable", "ready-then-second-wave", "static-source-fails-while-idle"}[hi%7]
 		r.Eval(fmt.Sprintf("%s|%d", scenario, hi))
 		r.SetAdd("scenarios", scenario)
 		switch scenario {
@@ -404,6 +412,68 @@ func TestVerifC19(t *testing.T) {
 			}
 			e.close()
 
+		case "static-source-fails-while-idle":
+			// a real on-demand static source (MPEG-TS over UDP fed by the harness) becomes ready, nobody reads,
+			// then the upstream dies while the close timer is armed; a new request must restart the source
+			// (and here, with a dead upstream, get exactly one timeout error)
+			port := 20000 + 200*19 + 150 + hi%40
+			if pb := os.Getenv("VERIF_PORTBASE"); pb != "" {
+				fmt.Sscan(pb, &port)
+				port += 30 + hi%8
+			}
+			start := 700 * time.Millisecond
+			wbReadTimeout = 250 * time.Millisecond
+			e := wbStart(t, fmt.Sprintf("  p:\n    source: udp+mpegts://127.0.0.1:%d\n    sourceOnDemand: yes\n    sourceOnDemandStartTimeout: %s\n    sourceOnDemandCloseAfter: 4s\n", port, start))
+			wbReadTimeout = 10 * time.Second
+			h1 := e.heldDescribe("a0", "p")
+			stopFeed := make(chan struct{})
+			feedDone := make(chan struct{})
+			go func() {
+				defer close(feedDone)
+				time.Sleep(60 * time.Millisecond) // let the source bind its socket
+				conn, err := net.Dial("udp", fmt.Sprintf("127.0.0.1:%d", port))
+				if err != nil {
+					return
+				}
+				defer conn.Close()
+				track := &mpegts.Track{Codec: &tscodecs.H264{}}
+				bw := bufio.NewWriter(conn)
+				w := &mpegts.Writer{W: bw, Tracks: []*mpegts.Track{track}}
+				if w.Initialize() != nil {
+					return
+				}
+				for k := int64(0); ; k++ {
+					select {
+					case <-stopFeed:
+						return
+					default:
+					}
+					w.WriteH264(track, k*3000, k*3000, [][]byte{{7, 1, 2, 3}, {8, 1}, {5, 1}}) //nolint:errcheck
+					bw.Flush()                                                                  //nolint:errcheck
+					time.Sleep(20 * time.Millisecond)
+				}
+			}()
+			if !c19Wait(c19AllAnswered([]*c19Held{h1}), 20*time.Second) || h1.got()[0] != "stream" {
+				close(stopFeed)
+				<-feedDone
+				r.Count("static_source_feed_not_ready_skipped", 1)
+				e.close()
+				continue
+			}
+			close(stopFeed) // upstream dies
+			<-feedDone
+			// wait until the source reported the failure (log line), then ask again
+			c19Wait(func() bool { return c19CountLogs(e, "timed out") >= 1 || c19CountLogs(e, "] stopped") >= 1 || c19CountLogs(e, "ERR") >= 1 }, 3*time.Second)
+			time.Sleep(2 * wbReadTimeoutShort)
+			h2 := e.heldDescribe("b0", "p")
+			if !c19Wait(c19AllAnswered([]*c19Held{h2}), 30*start) {
+				r.Violation("request-unanswered:static-source-failed-while-idle", fmt.Sprintf("an on-demand static source failed while nobody was reading; a describe request sent afterwards is unanswered after %s (start timeout %s)", 30*start, start), wbTrim(e.snapshotEvents(), 40))
+			} else {
+				c19CheckOnce(r, e, []*c19Held{h1, h2}, scenario, func(a string) bool { return true }, "one response")
+			}
+			c19Alternation(r, e, "] started on demand", "] stopped:", scenario)
+			e.close()
+
 		case "static-source-unreachable":
 			start := time.Duration(150+rng.IntN(150)) * time.Millisecond
 			e := wbStart(t, fmt.Sprintf("  p:\n    source: rtsp://127.0.0.1:1/x\n    sourceOnDemand: yes\n    sourceOnDemandStartTimeout: %s\n    sourceOnDemandCloseAfter: %s\n", start, closeAfter))
@@ -433,6 +503,6 @@ func TestVerifC19(t *testing.T) {
 			break
 		}
 	}
-	r.Finish("real pathManager/path; describe / add-reader requests sent like the public methods but with harness-owned buffered response channels (a second answer is observed, not a deadlock). Scenarios: publisher arrives in time (all get the stream; command not stopped while a reader stays 3x the close delay; stopped after the last reader leaves; restarted on later demand), start timeout (each request exactly one timeout error, command stopped, second wave restarts it), path removed or recreated by a reload while requests are held (each exactly one 'terminated'), on-demand publisher leaves and a new request arrives before the old reader's RemoveReader, unreachable on-demand static source (timeouts, start/stop alternation, restart). non-trivial = distinct scenario instance",
+	r.Finish("real pathManager/path; describe / add-reader requests sent like the public methods but with harness-owned buffered response channels (a second answer is observed, not a deadlock). Scenarios: publisher arrives in time (all get the stream; command not stopped while a reader stays 3x the close delay; stopped after the last reader leaves; restarted on later demand), start timeout (each request exactly one timeout error, command stopped, second wave restarts it), path removed or recreated by a reload while requests are held (each exactly one 'terminated'), on-demand publisher leaves and a new request arrives before the old reader's RemoveReader, unreachable on-demand static source (timeouts, start/stop alternation, restart), and a real on-demand static source (MPEG-TS over UDP fed by the harness) that becomes ready and then dies while idle: a later request must be answered. non-trivial = distinct scenario instance",
 		"response kinds are judged only in scenarios where the order of events is fixed by the harness (start timeout 20 s when the publisher is meant to win); progress waits use 30x watchdogs and a white-box look at the path before calling a request stranded")
 }
